@@ -245,6 +245,9 @@ type RollbackSpec struct {
 	// leaves WAL mode (pagerExclusiveLock in sqlite3PagerCloseWal; the header
 	// rewrite that follows finds the lock already at EXCLUSIVE).
 	ExclusiveFirst bool `json:"exclusive_first,omitempty"`
+	// JournalSizeLimit > 0 (persist mode): PRAGMA journal_size_limit - the
+	// finalised journal is truncated to that size when it is larger.
+	JournalSizeLimit int64 `json:"journal_size_limit,omitempty"`
 }
 
 // Result of a transaction step sequence.
@@ -545,7 +548,20 @@ func (c *Conn) RunRollbackTx(spec RollbackSpec) (res TxResult) {
 			if err := c.write(jf, make([]byte, 28), 0); err != nil {
 				return err
 			}
-			return jf.Fsync()
+			if err := jf.Fsync(); err != nil {
+				return err
+			}
+			// PRAGMA journal_size_limit: zeroJournalHdr() cuts the file down to the
+			// limit once the header is zeroed (the transaction is committed by then)
+			if spec.JournalSizeLimit > 0 {
+				if sz, err := jf.Size(); err == nil && sz > spec.JournalSizeLimit {
+					if err := d.step("journal size limit"); err != nil {
+						return err
+					}
+					return jf.Truncate(spec.JournalSizeLimit)
+				}
+			}
+			return nil
 		}
 		return fmt.Errorf("bad mode %q", spec.Mode)
 	}
